@@ -9,6 +9,7 @@ package main
 import (
 	"bufio"
 	"fmt"
+	"io"
 	"math/rand"
 	"os"
 	"runtime/debug"
@@ -102,6 +103,12 @@ func main() {
 		fh, _ := os.Create(pf)
 		pprof.StartCPUProfile(fh)
 		defer pprof.StopCPUProfile()
+	}
+	if os.Args[1] == "tokens" {
+		// debugging aid: the parser-visible tokens of the text on stdin
+		b, _ := io.ReadAll(os.Stdin)
+		fmt.Println(stmtCase(string(b)).String())
+		return
 	}
 	if os.Args[1] == "text" {
 		printTexts()
